@@ -48,3 +48,10 @@ theorem InvB.preserved {cfg : Cfg} {s s' : State} {l : Label} (hI : InvB s)
   all_goals (first | grind [upd, Root.kind, TS.active, TS.live, TS.ended, TS.isStopping, watcherLike, failTS, cancelSubs, cancelRoots, Pend.ts] | (trace_state; sorry))
 
 end Kopf.C20
+
+namespace Kopf.C20
+
+theorem InvB.reach {cfg : Cfg} {s : State} (h : Reach cfg s) : InvB s :=
+  Reach.induction (P := InvB) InvB.init (fun _ _ _ _ hI hs => InvB.preserved hI hs) s h
+
+end Kopf.C20
